@@ -113,6 +113,45 @@ def run(ctx):
         if d["k"] == "P":
             tot["panics(C05)"] += 1
 
+    # translation validation of the pipeline model (Model/Pipeline.gen) on the scenarios inside its fragment, and the
+    # fragment theorem / restated specification executed on the probes
+    jl = [(d, l) for d, l in judge_in if d["k"] == "J"]
+    ties = ctx.driver("pipeline", [l for _, l in jl]) if jl else []
+    frag = collections.Counter()
+    outside = collections.Counter()
+    frag_by_profile = collections.Counter()
+    for (d, l), t in zip(jl, ties):
+        try:
+            t = json.loads(t)
+        except Exception:
+            t = {"error": "undecodable"}
+        if "error" in t:
+            ctx.broken(f"pipeline mode could not decode a harness line: {t}", replay={"line": l[:2000]})
+            continue
+        frag["scenarios"] += 1
+        if not t.get("inFragment"):
+            outside[t.get("why", "")[:70]] += 1
+            continue
+        frag["in_fragment"] += 1
+        frag_by_profile[d.get("profile", "")] += 1
+        frag["no_shadow"] += bool(t.get("noShadow"))
+        frag["probes"] += t.get("probes", 0)
+        if t.get("confEqual"):
+            frag["conf_equal"] += 1
+        else:
+            frag["conf_differs"] += 1
+            if frag["conf_differs"] <= 3:
+                ctx.broken("pipeline model and real generator disagree (abstracted http.conf ≠ Pipeline.gen): " + t.get("confDiff", "")[:700],
+                           replay={"id": d["id"], "flat": d.get("flat"), "files": d.get("files"), "diff": t.get("confDiff")})
+        if t.get("thmFail"):
+            frag["theorem_falsified"] += 1
+            ctx.broken("route_refines_spec_fragment is false on a generated input: " + t["thmFail"][:700],
+                       kind="obligation", replay={"id": d["id"], "flat": d.get("flat"), "detail": t["thmFail"]})
+        if t.get("specFail"):
+            frag["spec_restatement_differs"] += 1
+            ctx.broken("Pipeline.routeF (fragment specification) disagrees with Spec.GatewayAPI.route: " + t["specFail"][:700],
+                       replay={"id": d["id"], "flat": d.get("flat"), "detail": t["specFail"]})
+
     # correspondence of the proved cores with the real functions
     core_in = [(d, l) for d, l in parsed if d["k"] in ("H", "S", "L", "G", "N")]
     outs = ctx.driver("model", [l for _, l in core_in]) if core_in else []
@@ -163,7 +202,7 @@ def run(ctx):
                 "same scenario; non-trivial = distinct scenarios (flat form) for which at least one probe is prescribed a proxy, "
                 "redirect or passthrough outcome",
         "samples": samples,
-        "traces_validated_against_impl": validated,
+        "traces_validated_against_impl": validated + frag["conf_equal"],
         "correspondence_diffs": diffs,
         "line_kinds": dict(kinds),
         "profiles": dict(profiles),
@@ -172,6 +211,9 @@ def run(ctx):
         "generator_tags": dict(tags),
         "noise_kinds": dict(noise),
         "listener_validity_differs_from_graph": lv_diffs,
+        "pipeline_model_fragment": dict(frag),
+        "pipeline_model_fragment_by_profile": dict(frag_by_profile),
+        "pipeline_model_outside_fragment_reasons": dict(outside),
         "hostname_reading_differences(DESIGN §8)": tot["hostReadingDiff"],
     }, assumptions=[
         "NGINX behaves as Model/NginxEval.lean says (server_name, location, rewrite/return, split_clients, stream map hostnames, "
